@@ -18,7 +18,7 @@ def check(run):
     funcs, info = engine.load_mir('ibig')
     run.mir_info.append(info)
     quick = run.tier == 'quick'
-    run.guard(CL.single_clip, funcs, 'C02', (0,) if quick else (0, 1), 7, True, not quick, (1, 7) if quick else tuple(range(9)))
+    run.guard(CL.single_clip, funcs, 'C02', (0,) if quick else (0, 1), 7, True, not quick, (1, 7) if quick else (1, 2, 6, 7))
     run.guard(BR.check_normalisation, funcs, 'C02')
     run.guard(GR.cuboid, funcs, 'C02')
     run.guard(GR.build_loop, funcs, 'C02')          # no candidate within the safety radius is skipped (skipped neighbours make cells overlap)
